@@ -356,8 +356,11 @@ class _CryptConfig:
             kwds.update(get_optionmap(scheme, category))
 
             # compare default category options to see if there's anything
-            # category-specific
-            if kwds != defkwds:
+            # category-specific. (values must be compared along with their type:
+            # vary_rounds=1 means +/- 1 round, vary_rounds=1.0 means +/- 100%)
+            if kwds != defkwds or any(
+                type(kwds[key]) is not type(defkwds[key]) for key in kwds
+            ):
                 has_cat_options = True
 
         return kwds, has_cat_options
